@@ -115,6 +115,7 @@ def real_bytes(chk: core.Check, thorough: bool):
         p = core.REPO / "tests" / "data" / fn
         if not p.exists():
             continue
+        n_api_full = 0
         with uproot.open(p) as f:
             tree = f["Event"]
             names = collection_branches(tree)
@@ -161,7 +162,15 @@ def real_bytes(chk: core.Check, thorough: bool):
                                               str(got)[:600] if isinstance(got, str) else {"n": len(got), "fields": got.fields}, {"n": b - a, "fields": full.fields}, "slice of the full read, independent of the basket layout")
                             return
                 # public API
-                for a, b in ([(0, n), (1, n), (n - 1, n), (3, 4)] + ([(int(x), int(y)) for x, y in itertools.combinations(range(n + 1), 2)] if thorough else [])):
+                all_pairs = [(int(x), int(y)) for x, y in itertools.combinations(range(n + 1), 2)]
+                # thorough: every interval for three branches per file, 12 random intervals for each of the others (all intervals of all
+                # branches of all fixtures took > 25 min)
+                if thorough:
+                    extra_pairs = all_pairs if n_api_full < 3 else [all_pairs[i] for i in rng.choice(len(all_pairs), size=min(12, len(all_pairs)), replace=False)]
+                    n_api_full += 1
+                else:
+                    extra_pairs = []
+                for a, b in ([(0, n), (1, n), (n - 1, n), (3, 4)] + extra_pairs):
                     if a >= b or b > n:
                         continue
                     got = br.array(entry_start=a, entry_stop=b)
